@@ -7,6 +7,7 @@ CONSTANTS
   PhysPage <- MCPhys
   Bufs <- MCBufs2
   Ctxs = {1, 2}
+  Queues = {1}
   Ranges <- MCRangesQ
   KWrites <- MCKWritesQ
   MaxCmds = 3
